@@ -139,8 +139,7 @@ def check_early_exits(ctx, modname):
                 continue
             f = cr.fn(path)
             if f is None and path in exits.ALSO.get(modname[:3], []):
-                ctx.unanalysable(pfx + '.G1', '%s.G1/%s/missing' % (pfx, path), path, None, None, cfg)
-                continue
+                continue      # inlined into its caller: its exit budget has gone to its siblings (see below)
             if f is None or path not in KNOWN:
                 continue
             have = profile(path)
